@@ -191,6 +191,8 @@ package certstore
 //@   harness harness/snapshot_delta_test.go
 //@   modifies auto
 //@   maypanic
+//@   loop 1
+//@     invariant keyedByID(ptm)
 //@   at OpenOrCreateStore 1
 //@     before[header_agrees_with_the_manifest] m != nil ==> m.InitialInstance == header.FirstInstance
 //@     before[store_created_from_the_header] arg(2) == header.FirstInstance && arg(3) == header.InitialPowerTable
